@@ -454,16 +454,16 @@ func resetGlobalErr(scope *scope) {
 }
 
 func globalErr(scope *scope, isErr bool, msg string) {
-	val, ok := scope.get("err")
-	if !ok {
+	if _, ok := scope.get("err"); !ok {
 		panic("cannot find global err")
 	}
-	val.Set(&boolVal{V: isErr})
-	val, ok = scope.get("errmsg")
-	if !ok {
+	// rebind instead of overwriting the value in place: a variable that
+	// was assigned from err or errmsg must keep its value
+	scope.update("err", &boolVal{V: isErr})
+	if _, ok := scope.get("errmsg"); !ok {
 		panic("cannot find global errmsg")
 	}
-	val.Set(&stringVal{V: msg})
+	scope.update("errmsg", &stringVal{V: msg})
 }
 
 var typeofDecl = &parser.FuncDefStmt{
